@@ -61,6 +61,18 @@ CHECKS.update({
             "Strict model as the property states it. mmap-file syncs are observed inside the instrumented ristretto copy (tied to the real call); MANIFEST append fsync through the syncFunc seam; other fd syncs by vhook lines next to the call. One defect found and fixed (see known_findings.jsonl).", "3/C10"),
 })
 
+CHECKS.update({
+    "C07": ("exploration", "deterministic simulation of histories followed by scheduled close / read-only open / re-open cycles with file hashing",
+            "After generated histories (with flushes and, mostly, real compactions) the closer client dumps everything, closes, hashes every file, opens read-only and dumps, hashes again, re-opens read-write with other compaction settings and dumps: visible state identical and equal to the model, versions only shrink, the read-only session touches no file.",
+            "Close/Open run under the same scheduler (their flushes and CompactL0OnClose are schedule points). Found and fixed one defect (see known_findings.jsonl).", "3/C07"),
+    "C11": ("exploration", "deterministic simulation: commits after clean re-opens and after every recovered crash image",
+            "After every clean close/re-open cycle and after every recovered kill / torn / power-loss image (C08/C09/C10 share the oracle) new commits on an existing and a new key must be visible and carry a version above every stored version.",
+            "Load / StreamWriter.Flush / DropAll variants of the statement are checked by the C24/C26/C29 scenarios once those are claimed.", "3/C11"),
+    "C14": ("exploration", "deterministic simulation + structural check after re-opens and after every recovered crash image",
+            "After every re-open cycle and every recovered crash image: .sst files on disk equal the MANIFEST/levels table set, every level >= 1 is sorted and disjoint on user keys, Open's own validation passes; histories include concurrent compactors on adjacent ranges.",
+            "File-set equality is compared only at quiescent points (after Open settled), as tables under construction legitimately exist in between.", "3/C14"),
+})
+
 PENDING = {}  # property -> reason while not yet implemented
 
 def main():
